@@ -70,4 +70,20 @@ AliasHeader(header, alias) ==
 \* known answer of the CRC (ETG.1000.6: check value of "123456789" is 0xF4 for poly 07 / init FF -> 0xFB?)
 CrcSelfTest == Crc8(<<0, 0, 0, 0, 0, 0, 0, 0, 0, 0, 0, 0, 0, 0>>) \in 0..255
 
+\* ---------------------------------------------------------------------------
+\* EepromRange::write: the word writes a payload turns into, inside a window of `winBytes` bytes starting at word
+\* `start` (the window is whole words and ends with the address space): word k holds payload bytes 2k-1 and 2k, an
+\* odd trailing byte is padded with zero, nothing is written past the window
+WindowWords(start, winBytes) ==
+    LET w == (winBytes + 1) \div 2 IN IF start + w > 65536 THEN 65536 - start ELSE w
+
+RangeWriteWords(start, winBytes, payload) ==
+    LET n == (Len(payload) + 1) \div 2
+        m == IF n < WindowWords(start, winBytes) THEN n ELSE WindowWords(start, winBytes)
+    IN [k \in 1..m |-> <<start + k - 1, payload[2 * k - 1], IF 2 * k <= Len(payload) THEN payload[2 * k] ELSE 0>>]
+
+\* bytes of the payload that were consumed
+RangeWriteCount(start, winBytes, payload) ==
+    LET m == Len(RangeWriteWords(start, winBytes, payload)) IN IF 2 * m > Len(payload) THEN Len(payload) ELSE 2 * m
+
 =============================================================================
